@@ -110,6 +110,8 @@ def make_layout(c):
         lay['analysis_offsets'] = c['analysis']
     if c.get('pad_before'):
         lay['pad_before'] = dict(c['pad_before'])
+    if c.get('offset_format'):
+        lay['offset_format'] = c['offset_format']
     if c.get('seg_order'):
         lay['seg_order'] = list(c['seg_order'])
         if not lay.get('stext'):
@@ -202,7 +204,8 @@ def cases(tier, seed):
             ('stext', [None, 'after', 'before']),
             ('analysis', [None, 'header', 'text']),
             ('seg_order', [None] + SEG_ORDERS),
-            ('via', ['path', 'handle-peeked', 'handle-twice'])]     # loaded from an open file object that has been read from before
+            ('via', ['path', 'handle-peeked', 'handle-twice', 'path-after-edit']),   # from an open file object that has been read from before; again after an in-place edit of the first load
+            ('offset_format', ['zero', 'left', 'right'])]             # offsets in TEXT zero-padded or blank-padded within their fields
     k = 2 if tier == 'quick' else 3
     bases = [dict(kind='int', widths=[16], byteord='4,3,2,1', rk=['full']),
              dict(kind='int', widths=[8, 24], byteord='1,2,3,4', rk=['npot', 'full']),
@@ -266,6 +269,12 @@ def run_case(c):
         with warnings.catch_warnings(record=True):
             warnings.simplefilter('always')
             via = c.get('via', 'path')
+            if via == 'path-after-edit':
+                first = FlowCal.io.FCSData(path)
+                if first.size:
+                    first[...] = first.max() if first.dtype.kind != 'f' else 7.0      # in-place edit of the first load (a caller's own business)
+                    first[0, 0] = 0
+                via = 'path'
             if via == 'path':
                 f = FlowCal.io.FCSFile(path)
                 data = f.data
